@@ -121,5 +121,6 @@ def run_partb(rc):
 
 
 def replay(data):
-    from ..replay import replay_grammar_case
-    return replay_grammar_case(data)
+    from ..replay import replay_by_rerun
+    from . import c12
+    return replay_by_rerun(c12, data)
